@@ -43,6 +43,8 @@ type Engine struct {
 	usedPure map[string]bool
 	qn       int
 	cardDone map[string]bool
+	condSets map[string]condSetInfo
+	privGlobals []string
 }
 
 type CallRec struct {
@@ -54,6 +56,7 @@ type CallRec struct {
 	Block   *ssa.BasicBlock // position of the (outermost) call site in the top-level function
 	Index   int
 	Depth   int
+	After   *State // state right after the call returned
 }
 
 type Closure struct {
@@ -65,6 +68,8 @@ type Closure struct {
 type retPoint struct {
 	st      *State
 	results []Term
+	block   *ssa.BasicBlock
+	idx     int
 }
 
 type Frame struct {
@@ -409,6 +414,15 @@ func (fr *Frame) val(v ssa.Value) Term {
 			vc.decl("glob:"+n, fmt.Sprintf("(declare-const %s Loc)", n))
 			vc.decls = append(vc.decls, fmt.Sprintf("(assert (and (not (= %s nil)) (is_obj %s) (>= (rootid %s) 0) (< (rootid %s) alloc@0)))", n, n, n, n))
 			vc.globals = append(vc.globals, n)
+			top := fr
+			for top.parent != nil {
+				top = top.parent
+			}
+			if v.Pkg != nil && top.fn.Pkg != nil && v.Pkg == top.fn.Pkg && v.Object() != nil && !v.Object().Exported() {
+				fr.eng.privGlobals = append(fr.eng.privGlobals, n)
+				vc.decl("fn:privroot", "(declare-fun privroot (Int) Bool)")
+				vc.decls = append(vc.decls, fmt.Sprintf("(assert (privroot (rootid %s)))", n))
+			}
 		}
 		return n
 	case *ssa.Function:
@@ -633,7 +647,7 @@ func (fr *Frame) pass(st *State, dry bool) {
 				for _, r := range ins.Results {
 					rs = append(rs, fr.val(r))
 				}
-				fr.rets = append(fr.rets, retPoint{cur, rs})
+				fr.rets = append(fr.rets, retPoint{cur, rs, b, i})
 			case *ssa.Panic:
 				fr.onPanic(cur, ins)
 			default:
